@@ -97,6 +97,12 @@ def chain_root(node):
         else:
             return node, list(reversed(attrs))
 
+def stmt_line(n):
+    """line of the statement containing node n (what a line tracer reports)"""
+    while n is not None and not isinstance(n, ast.stmt):
+        n = parent(n)
+    return getattr(n, 'lineno', 0)
+
 def call_name(call):
     f = call.func
     if isinstance(f, ast.Name):
@@ -819,7 +825,8 @@ class StateInventory:
             else:
                 kind = 'pureCache'
                 detail = f'{f.mod.text(decs[0], 50)} on a function of {nparams} argument(s) reading only its arguments, constants and import tables'
-            self.sites.append({'key': f'{f.key}:@cache', 'kind': kind, 'writers': '', 'detail': detail})
+            self.sites.append({'key': f'{f.key}:@cache', 'kind': kind, 'writers': '', 'detail': detail, 'file': f.mod.rel, 'path': f.path,
+                               'lineno': f.node.body[0].lineno if isinstance(f.node.body, list) else f.node.lineno})
         # hand-rolled memo tables are ordinary module-level dicts written from functions: covered by _module_names
 
     # ---- monkey patches
@@ -837,7 +844,8 @@ class StateInventory:
                 kind = 'scopedRedirect'
             else:
                 kind = 'patchPerFile'
-            self.sites.append({'key': key, 'kind': kind, 'writers': f'{f.qual}[{f.path}]', 'detail': 'write into a foreign module: ' + f.mod.text(n, 70)})
+            self.sites.append({'key': key, 'kind': kind, 'writers': f'{f.qual}[{f.path}]', 'detail': 'write into a foreign module: ' + f.mod.text(n, 70),
+                               'file': f.mod.rel, 'lineno': n.lineno, 'path': f.path})
 
     def _scoped(self, f, n):
         """`orig = M.x … M.x = new … finally: M.x = orig` inside one function"""
@@ -1141,7 +1149,7 @@ class IterInventory:
     def _add(self, f, n, t, v):
         verdict, consumer = v
         self.sites.append({'key': f'{f.key}:{f.mod.text(n, 70)}', 'source': t[1] if isinstance(t[1], str) else str(t[1]), 'consumer': consumer,
-                           'verdict': verdict, 'lineno': getattr(n, 'lineno', 0), 'file': f.mod.rel})
+                           'verdict': verdict, 'lineno': stmt_line(n), 'file': f.mod.rel, 'path': f.path})
 
     def consume(self, f, e, viewed):
         """(verdict, consumer text) or None when the expression is merely bound / stored / combined into another set"""
@@ -1646,7 +1654,7 @@ class MutInventory:
                 kind, why = self.root_kind(f, tgt, at=n)
                 if kind == 'foreignModule' and any(g is f for g, *_ in sc.patch_sites):
                     continue          # listed in the state inventory as a patch / scoped redirect
-                self.sites.append({'key': f'{f.key}:{text}', 'root': kind, 'detail': why, 'lineno': getattr(n, 'lineno', 0), 'file': f.mod.rel, 'fn': f})
+                self.sites.append({'key': f'{f.key}:{text}', 'root': kind, 'detail': why, 'lineno': stmt_line(n), 'file': f.mod.rel, 'fn': f, 'path': f.path})
 
     def _creation_sites(self):
         sc = self.sc
